@@ -73,7 +73,9 @@ KANI_NEXT_KEY = {'crate': 'kani/check_k2', 'kind': 'bounded', 'parallel': 4, 'ti
     _h('proofs::next_key_len_2', _NK, 'keys of exactly 2 words, all words'),
     _h('proofs::next_key_len_0', _NK, 'the empty key'),
     _h('proofs::next_key_len_1', _NK, 'keys of exactly 1 word, all words'),
-    _h('proofs::next_key_len_4', _NK, 'keys of exactly 4 words, all words', 'thorough')]}
+    _h('proofs::next_key_len_3', _NK, 'keys of exactly 3 words, all words (double carries)'),
+    _h('proofs::next_key_len_4', _NK, 'keys of exactly 4 words, all words', 'thorough'),
+    _h('proofs::next_key_len_6', _NK, 'keys of exactly 6 words, all words', 'thorough')]}
 KANI_ASM_EFFECTS = {'crate': 'kani/asm_k1', 'generate': asm_yaml.gen_kani_table, 'kind': 'complete', 'harnesses': [
     {'name': 'proofs::effects_api', 'claim': 'bitflags-generated Effects API (empty/all/bits/contains/union/|=/==, flag constants) has its documented bit-level meaning'}]}
 KANI_ASM_ANALYZE = {'crate': 'kani/asm_k1', 'generate': asm_yaml.gen_kani_table, 'kind': 'bounded', 'harnesses': [
